@@ -116,10 +116,8 @@ pub open spec fn kinds_of(vs: Seq<Value>) -> Seq<ValueKind> { vs.map_values(|v: 
 pub uninterp spec fn mk_record(ks: Seq<(SmolStr, ValueKind)>) -> ValueKind;
 /// Some(uids) if every element of the set is an entity literal
 pub uninterp spec fn entity_elems(s: Set) -> Option<Seq<EntityUID>>;
-/// set membership / inclusion / disjointness by value equality (proved for the representation in unit value_set)
-pub uninterp spec fn set_mem(s: Set, v: ValueKind) -> bool;
-pub uninterp spec fn set_subset(a: Set, b: Set) -> bool;
-pub uninterp spec fn set_disjoint(a: Set, b: Set) -> bool;
+/// the abstract content of a cedar Set (its representation is under contract in unit value_set, same contract text)
+pub uninterp spec fn set_abs(s: Set) -> SSet<AbsVal>;
 impl Set {
     #[verifier::external_body] pub fn contains(&self, v: &Value) -> (r: bool) ensures r == set_mem(*self, v.value) { unimplemented!() }
     #[verifier::external_body] pub fn is_subset(&self, o: &Set) -> (r: bool) ensures r == set_subset(*self, *o) { unimplemented!() }
